@@ -15,13 +15,19 @@ import (
 	"encoding/binary"
 	"fmt"
 	"math/rand"
+	"os"
 	"sync"
 	"time"
 
+	"github.com/IrineSistiana/mosproxy/app/router"
 	"github.com/IrineSistiana/mosproxy/internal/dnsmsg"
+	"github.com/IrineSistiana/mosproxy/internal/pool"
 )
 
 var lfix *fixture
+
+// lfixIdle: stream listeners with idle_timeout 2 s (shorter than the "late" upstream answer of 3.5 s)
+var lfixIdle *fixture
 
 func listenersSetup() {
 	f, err := newFixture(listenerKinds, nil)
@@ -29,12 +35,24 @@ func listenersSetup() {
 		panic(err)
 	}
 	lfix = f
+	fi, err := newFixture([]string{"tcp", "gnet", "tls", "quic"}, func(cfg *router.Config) {
+		for i := range cfg.Servers {
+			cfg.Servers[i].IdleTimeout = 2
+		}
+	})
+	if err != nil {
+		panic(err)
+	}
+	lfixIdle = fi
 	time.Sleep(50 * time.Millisecond)
 }
 
 func listenersTeardown() {
 	if lfix != nil {
 		lfix.close()
+	}
+	if lfixIdle != nil {
+		lfixIdle.close()
 	}
 }
 
@@ -265,8 +283,64 @@ func runLinger(m map[string]string) string {
 			}
 		}()
 	}
+	extra := 0
+	if !huge {
+		// a connection is not idle while its query is being handled: idle_timeout 2 s, answer after 3.5 s
+		for ki, kind := range []string{"tcp", "gnet", "tls", "quic"} {
+			ki, kind := ki, kind
+			extra++
+			wg.Add(1)
+			go func() {
+				defer wg.Done()
+				name := wireLabels([]byte(fmt.Sprintf("late%d", seed)), []byte("busyidle"), []byte(kind))
+				id := uint16(seed + 100 + ki)
+				res := lfixIdle.exchange(kind, buildQuery(id, name, 1, false, 0), "whole", 8*time.Second)
+				if res.status == "resp" {
+					judge(id, name, res.resp)
+				} else if os.Getenv("MIXDEBUG") != "" {
+					fmt.Fprintln(os.Stderr, "busyidle", kind, res.status)
+				}
+			}()
+		}
+		// a UDP query larger than 2048 octets (padding option)
+		extra++
+		wg.Add(1)
+		go func() {
+			defer wg.Done()
+			name := wireLabels([]byte(fmt.Sprintf("ok%d", seed)), []byte("bigquery"))
+			id := uint16(seed + 200)
+			res := lfix.exchange("udp", buildPaddedQuery(id, name, 1, 2200+seed%1500), "-", 4*time.Second)
+			if res.status == "resp" {
+				judge(id, name, res.resp)
+			} else if os.Getenv("MIXDEBUG") != "" {
+				fmt.Fprintln(os.Stderr, "bigquery", res.status)
+			}
+		}()
+	}
 	wg.Wait()
-	return fmt.Sprintf("sent=%d answered=%d once=%d idok=%d own=%d rcodeok=%d", 2*len(kinds), answered, once, idok, own, rcodeok)
+	return fmt.Sprintf("sent=%d answered=%d once=%d idok=%d own=%d rcodeok=%d", 2*len(kinds)+extra, answered, once, idok, own, rcodeok)
+}
+
+// buildPaddedQuery: an RD query with an OPT record carrying a padding option (RFC 7830) of pad octets.
+func buildPaddedQuery(id uint16, name []byte, typ uint16, pad int) []byte {
+	m := dnsmsg.NewMsg()
+	defer dnsmsg.ReleaseMsg(m)
+	m.Header.ID = id
+	m.Header.RecursionDesired = true
+	q := dnsmsg.NewQuestion()
+	q.Name, q.Type, q.Class = nameBuf(name), dnsmsg.Type(typ), dnsmsg.ClassINET
+	m.Questions = append(m.Questions, q)
+	o := dnsmsg.NewRaw()
+	o.Type, o.Class = dnsmsg.TypeOPT, 4096
+	d := make([]byte, 4+pad)
+	d[1] = 12
+	d[2], d[3] = byte(pad>>8), byte(pad)
+	o.Data = pool.GetBuf(len(d))
+	copy(o.Data, d)
+	m.Additionals = append(m.Additionals, o)
+	b := make([]byte, m.Len())
+	n, _ := m.Pack(b, false, 0)
+	return b[:n]
 }
 
 func runServe(cs string) string {
@@ -378,7 +452,7 @@ func genServe(r *rand.Rand, thorough bool, emit func(c, cat string)) {
 			emit(fmt.Sprintf("kind=%s n=%d conc=%d mix=%s seed=%d", kind, n, []int{1, 8, 32}[r.Intn(3)], mix, r.Intn(1<<30)), kind+"-"+mix)
 		}
 	}
-	emit(fmt.Sprintf("kind=all n=14 conc=7 mix=linger seed=%d", r.Intn(30000)), "all-linger")
+	emit(fmt.Sprintf("kind=all n=19 conc=7 mix=linger seed=%d", r.Intn(30000)), "all-linger")
 	emit(fmt.Sprintf("kind=all n=14 conc=7 mix=huge seed=%d", r.Intn(30000)), "all-huge")
 	if thorough {
 		for _, kind := range listenerKinds {
@@ -420,7 +494,7 @@ func runUdpSize(cs string) string {
 	intact := 1
 	for i, rr := range rm.Answers {
 		raw, ok := rr.(*dnsmsg.RawResource)
-		if !ok || len(raw.Data) != 100 || raw.Data[0] != 99 || (i > 0 && raw.Data[1] <= rm.Answers[i-1].(*dnsmsg.RawResource).Data[1]) {
+		if !ok || len(raw.Data) != 100 || raw.Data[0] != 99 || (i > 0 && raw.Data[1] != rm.Answers[i-1].(*dnsmsg.RawResource).Data[1]+1) {
 			intact = 0
 		}
 	}
@@ -431,6 +505,12 @@ func genUdpSize(r *rand.Rand, thorough bool, emit func(c, cat string)) {
 	n := 40
 	if thorough {
 		n = 600
+	}
+	for _, size := range []int{65535, 65508, 65507, 65000} { // around the largest UDP payload
+		emit(fmt.Sprintf("opt=1 size=%d k=%d seq=%d", size, 570+r.Intn(140), r.Intn(1000000)), "opt1-huge")
+		if !thorough {
+			break
+		}
 	}
 	for i := 0; i < n; i++ {
 		opt := r.Intn(3) > 0
